@@ -121,6 +121,14 @@ Stat == /\ Step /\ e.ev = "stat" /\ KeepState
 SizeA == /\ Step /\ e.ev = "size" /\ KeepState
          /\ Must(SizeOK(e.msg, h.newver, Par, e.size))
 
+\* Size(m) = the bytes a message adds to a segment: judged when no rollover happened and the head has the new-segment version
+Grow == /\ Step /\ e.ev = "grow" /\ KeepState
+        /\ Must((~e.rolled /\ e.samever) => e.delta = e.sum)
+\* a directory written by the independent reference encoder: the abstract state is what was encoded
+Synth == /\ Step /\ e.ev = "synth" /\ h.mode = "closed"
+         /\ live' = e.msgs /\ next' = e.next
+         /\ UNCHANGED <<cfg, h, lay, pend, kf>>
+
 \* ---- projection of the directory by the reference codec (C11, C13, C17)
 \* segs[i] = [base, ver, offs, parsed, exact, ixpresent, ixderived, ixver]
 LayOf(segs) == [i \in 1..Len(segs) |-> [base |-> segs[i].base, ver |-> segs[i].ver, offs |-> segs[i].offs]]
@@ -186,7 +194,7 @@ Reject == /\ Step /\ e.ev = "reject" /\ KeepState /\ Must(ReadonlyRejectOK(e))
 
 Next == \/ Config \/ Reset \/ Open \/ Close \/ Publish \/ NextOff \/ SyncA \/ GCA \/ Delete \/ Scan
         \/ Consume \/ Get \/ GetByKey \/ OffsetByKey \/ ConsumeByKey \/ GetByTime \/ OffsetByTime
-        \/ Stat \/ SizeA \/ Layout \/ Find \/ Trim \/ SizeBound \/ Compact \/ Migrate \/ VersionRule
+        \/ Stat \/ SizeA \/ Grow \/ Synth \/ Layout \/ Find \/ Trim \/ SizeBound \/ Compact \/ Migrate \/ VersionRule
         \/ RmIndex \/ Same \/ Backup \/ BackupObs \/ Reject
 Spec == Init /\ [][Next]_vars
 
